@@ -95,6 +95,105 @@ type AttemptSpec struct {
 	Err     []ErrLink
 	Start   int64
 	End     int64
+	// BadUTF8 (one of the BadUTF8* kinds, 0 = none) puts bytes that are not valid UTF-8 into one string of the attempt,
+	// BadAt (BadAt*) says into which one. The case encoding is JSON, which cannot carry such bytes inside a string, so the
+	// choice is plain data and the bytes are synthesised at build time (BuildAttempts). Only generated when
+	// GenCfg.BadUTF8Percent > 0 (C13).
+	BadUTF8 int `json:",omitempty"`
+	BadAt   int `json:",omitempty"`
+}
+
+// Kinds of invalid UTF-8 (AttemptSpec.BadUTF8).
+const (
+	BadUTF8None   = 0
+	BadUTF8High   = 1 // "\xff\xfe": bytes that never occur in UTF-8
+	BadUTF8Cont   = 2 // "ab\x80cd": a lone continuation byte
+	BadUTF8Trunc  = 3 // "x\xe2\x82": a multi-byte sequence cut short at the end of the string
+	BadUTF8Latin1 = 4 // "caf\xe9": Latin-1 text
+	BadUTF8Last   = BadUTF8Latin1
+)
+
+// Places of the invalid bytes (AttemptSpec.BadAt).
+const (
+	BadAtErr0      = 0 // Err.Message
+	BadAtErr1      = 1 // Err.Wrapped.Message
+	BadAtErr2      = 2 // Err.Wrapped.Wrapped.Message
+	BadAtRespText  = 3 // Text of the typed response
+	BadAtRespList  = 4 // an extra last element of List of the typed response
+	BadAtRespInner = 5 // Inner.Label of the typed response (Inner is created when the response has none)
+	BadAtLast      = BadAtRespInner
+)
+
+// BadString returns s with the invalid bytes of the kind added (in front for BadUTF8High, else at the end, so that the
+// truncated sequence really ends the string). The result is never valid UTF-8 for a kind in 1..BadUTF8Last.
+func BadString(kind int, s string) string {
+	switch kind {
+	case BadUTF8High:
+		return "\xff\xfe" + s
+	case BadUTF8Cont:
+		return s + "ab\x80cd"
+	case BadUTF8Trunc:
+		return s + "x\xe2\x82"
+	case BadUTF8Latin1:
+		return s + "caf\xe9"
+	}
+	return s
+}
+
+// BadPlace normalises BadUTF8/BadAt for an attempt of an action of the plugin kind: kind 0 means the attempt has no
+// invalid string. It is total (hand-edited or shrunk cases): an error depth beyond the chain means its last link, a
+// place that does not exist (no error chain, no typed response) falls over to the other family, and an attempt with
+// neither an error nor a typed response has no string at all.
+func (at AttemptSpec) BadPlace(plugin int) (kind, place int) {
+	if at.BadUTF8 < 1 || at.BadUTF8 > BadUTF8Last {
+		return BadUTF8None, 0
+	}
+	respOK := at.HasResp && BuildResp(plugin, AttemptSpec{HasResp: true}) != nil
+	place = at.BadAt
+	if place >= BadAtRespText && place <= BadAtLast {
+		if respOK {
+			return at.BadUTF8, place
+		}
+		place = len(at.Err) - 1
+	}
+	if place < 0 || place > BadAtLast {
+		place = 0
+	}
+	if len(at.Err) == 0 {
+		if respOK {
+			return at.BadUTF8, BadAtRespText
+		}
+		return BadUTF8None, 0
+	}
+	if place >= len(at.Err) {
+		place = len(at.Err) - 1
+	}
+	return at.BadUTF8, place
+}
+
+// withBadUTF8 returns the attempt with the invalid bytes written into the string BadPlace selects (copy on write).
+func (at AttemptSpec) withBadUTF8(plugin int) AttemptSpec {
+	kind, place := at.BadPlace(plugin)
+	if kind == BadUTF8None {
+		return at
+	}
+	switch place {
+	case BadAtErr0, BadAtErr1, BadAtErr2:
+		at.Err = append([]ErrLink(nil), at.Err...)
+		at.Err[place].Message = BadString(kind, at.Err[place].Message)
+	case BadAtRespText:
+		at.Resp.Text = BadString(kind, at.Resp.Text)
+	case BadAtRespList:
+		at.Resp.List = append(append([]string(nil), at.Resp.List...), BadString(kind, ""))
+	case BadAtRespInner:
+		in := InnerSpec{}
+		if at.Resp.Inner != nil {
+			in = *at.Resp.Inner
+		}
+		in.Label = BadString(kind, in.Label)
+		at.Resp.Inner = &in
+	}
+	return at
 }
 
 // ActionSpec describes an action.
@@ -278,6 +377,7 @@ func BuildAttempts(plugin int, ats []AttemptSpec) []*workflow.Attempt {
 	}
 	out := make([]*workflow.Attempt, 0, len(ats))
 	for _, at := range ats {
+		at = at.withBadUTF8(plugin) // a no-op unless the specification asks for invalid UTF-8 (C13's rare class)
 		out = append(out, &workflow.Attempt{Resp: BuildResp(plugin, at), Err: BuildErr(at.Err), Start: TimeOf(at.Start), End: TimeOf(at.End)})
 	}
 	return out
